@@ -554,6 +554,85 @@ async fn scenario_accept_drop(scn: u64, c: &Value) -> Value {
          "detail": format!("{} of {runs} runs stopped retrying (after {stalled_at:?} accepts)", stalled_at.len())})
 }
 
+/// Scenario 22: the delays the TCP connecter itself sleeps (monitor event `ConnectRetried { interval }`)
+/// after `hangs` connections in a row were lost before the handshake completed (the raw peer accepts and
+/// hangs up: the per-endpoint attempt count grows and is inherited by the next connecter) and the listener
+/// then disappears (connect refused) for `down_ms`; finally a real PULL binds the port and traffic must
+/// resume. Row: [22, resumed, socket_still_answers, interval_1_ms, interval_2_ms, ...] (reported values, not
+/// wall-clock measurements).
+async fn scenario_retry_intervals(scn: u64, c: &Value) -> Value {
+  use rzmq::socket::SocketEvent;
+  let ivl = c["ivl_ms"].as_i64().unwrap_or(50) as i32;
+  let max = c["max_ms"].as_i64().unwrap_or(200) as i32;
+  let hangs = c["hangs"].as_u64().unwrap_or(4);
+  let down = Duration::from_millis(c["down_ms"].as_u64().unwrap_or(1200));
+  let ctx = Context::new().expect("ctx");
+  let victim = mk(&ctx, SocketType::Push).await;
+  let _ = victim.set_option(RECONNECT_IVL, ivl).await;
+  let _ = victim.set_option(RECONNECT_IVL_MAX, max).await;
+  let _ = victim.set_option(SNDTIMEO, 300i32).await;
+  let mon = match victim.monitor(4000).await {
+    Ok(m) => m,
+    Err(_) => return json!({"rows": [[scn, 0, 0]], "detail": "monitor failed"}),
+  };
+  let l = TcpListener::bind("127.0.0.1:0").await.expect("raw listener");
+  let addr = l.local_addr().unwrap();
+  let ep = format!("tcp://{addr}");
+  let _ = timeout(T_OP, victim.connect(&ep)).await;
+  let mut accepted = 0u64;
+  while accepted < hangs {
+    match timeout(Duration::from_secs(6), l.accept()).await {
+      Ok(Ok((s, _))) => {
+        accepted += 1;
+        sleep(Duration::from_millis(40)).await;
+        drop(s);
+      }
+      _ => break,
+    }
+  }
+  drop(l);
+  let mut intervals: Vec<u64> = Vec::new();
+  let collect = |ev: &SocketEvent, out: &mut Vec<u64>| {
+    if let SocketEvent::ConnectRetried { interval, .. } = ev {
+      out.push(interval.as_millis() as u64);
+    }
+  };
+  let t_down = Instant::now();
+  while t_down.elapsed() < down {
+    if let Ok(Ok(ev)) = timeout(Duration::from_millis(50), mon.recv()).await {
+      collect(&ev, &mut intervals);
+    }
+  }
+  // the peer comes back
+  let p2 = mk(&ctx, SocketType::Pull).await;
+  let mut rebound = false;
+  for _ in 0..20 {
+    if let Ok(Ok(())) = timeout(T_OP, p2.bind(&ep)).await {
+      rebound = true;
+      break;
+    }
+    sleep(Duration::from_millis(100)).await;
+  }
+  let mut resumed = false;
+  let deadline = Instant::now() + Duration::from_millis(8000);
+  while rebound && Instant::now() < deadline && !resumed {
+    let _ = timeout(T_OP, victim.send(Msg::from_vec(vec![7u8; 8]))).await;
+    if let Ok(Ok(_)) = timeout(Duration::from_millis(50), p2.recv()).await {
+      resumed = true;
+    }
+    while let Ok(Ok(ev)) = timeout(Duration::from_millis(1), mon.recv()).await {
+      collect(&ev, &mut intervals);
+    }
+  }
+  let ops_ok = matches!(timeout(T_OP, victim.get_option(LAST_ENDPOINT)).await, Ok(Ok(_)));
+  let _ = timeout(T_OP, victim.close()).await;
+  let _ = timeout(T_OP, p2.close()).await;
+  let _ = timeout(Duration::from_millis(3000), ctx.term()).await;
+  let mut row = vec![scn, resumed as u64, ops_ok as u64];
+  row.extend(intervals.iter());
+  json!({"rows": [row], "detail": format!("accepted {accepted} of {hangs} hang-ups; rebound={rebound} resumed={resumed} ops={ops_ok}")})
+}
+
 /// Scenario 30: a quiet victim socket while OTHER sockets of the same context produce a burst of
 /// system events (inproc connects/disconnects, tcp connects). The victim must stay up.
 async fn scenario_event_burst(scn: u64, c: &Value) -> Value {
@@ -684,6 +763,7 @@ fn run_stack(c: &Value) -> Value {
         12 => scenario_resume(scn, n).await,
         20 => scenario_timing(scn, &c2).await,
         21 => scenario_accept_drop(scn, &c2).await,
+        22 => scenario_retry_intervals(scn, &c2).await,
         30 => scenario_event_burst(scn, &c2).await,
         31 => scenario_socket_burst(scn, &c2).await,
         _ => json!({"rows": [[scn, 9, 9]], "detail": "unknown scenario"}),
@@ -709,7 +789,7 @@ pub fn run_case(c: &Value) -> Value {
 /// Runs all cases; stack scenarios that do not measure time run four at a time (each has its own
 /// runtime and Context), everything else sequentially. Results keep the order of `cases`.
 pub fn run_all(cases: &[Value]) -> Vec<Value> {
-  let parallel_ok = |c: &Value| c["k"].as_str() == Some("iso") && !matches!(c["scn"].as_u64(), Some(20) | Some(21) | Some(30) | Some(31));
+  let parallel_ok = |c: &Value| c["k"].as_str() == Some("iso") && !matches!(c["scn"].as_u64(), Some(20) | Some(21) | Some(22) | Some(30) | Some(31));
   let mut out: Vec<Option<Value>> = cases.iter().map(|_| None).collect();
   let idx: Vec<usize> = (0..cases.len()).filter(|&i| parallel_ok(&cases[i])).collect();
   for chunk in idx.chunks(4) {
